@@ -1,11 +1,11 @@
 #!/bin/sh
-# usage: runmut.sh <Cxx> <mutant.py>... ; applies each mutant to the scratch worktree, runs the check, restores
-W=/tmp/coord/mut
+# usage: [VERIF_PARTS=..] runmut.sh <Cxx> <mutant.py>... ; applies each mutant to a scratch worktree of /repo HEAD, runs the check, restores
+W=${MUTW:-/tmp/coord/mut}
 P=$1; shift
+git -C $W checkout -q -- . 2>/dev/null
 git -C $W checkout -q --detach $(git -C /repo rev-parse HEAD) 2>/dev/null
 for m in "$@"; do
   git -C $W checkout -q -- . ; python3 $m $W || { echo "MUTANT $m: does not apply"; continue; }
-  (cd $W && GOPROXY=off go build ./tsdb/... ./storage/... 2>&1 | head -3)
   out=$(cd /verif && VERIF_REPO=$W ./check $P 2>&1 | grep -E "VIOLATION|INFRA|done:" | head -3)
   echo "MUTANT $(basename $m): $out"
 done
